@@ -330,6 +330,8 @@ def run(ctx):
             sequence_case(ctx, rng)
         for idx in range(ctx.n(30, 300)):
             live_load_case(ctx, rng, idx)
+    from .. import pycorr
+    pycorr.run(ctx)
     return ctx.finish(search=P.search_from_disagreements(ctx, oracle, LAYER_A))
 
 
